@@ -247,7 +247,8 @@ class CFG(object):
         return [ENTRY] + self.stmts + [EXIT, RAISE]
 
     def reachable_from(self, srcs, removed=(), normal_only=False):
-        removed = set(removed)
+        srcs = [_real(x) for x in srcs]
+        removed = set(_real(x) for x in removed)
         seen = set()
         stack = [s for s in srcs if s not in removed]
         while stack:
@@ -269,7 +270,8 @@ class CFG(object):
         ``src`` itself is not counted as passing (unless it is in via and
         equals the start, in which case the answer is trivially True).
         """
-        via = set(via)
+        via = set(_real(x) for x in via)
+        src, dst = _real(src), _real(dst)
         if src in via:
             return True
         start = [s for s in self.succ.get(src, ())
@@ -306,6 +308,7 @@ class CFG(object):
 
     def dominates(self, a, b):
         """Every path ENTRY -> b passes a (a != b allowed)."""
+        a, b = _real(a), _real(b)
         dom = self.dominators()
         if b not in dom:
             return True   # b unreachable
@@ -345,6 +348,12 @@ class CFG(object):
             if not any(n in via for n in p[1:]):
                 return False
         return True
+
+
+def _real(n):
+    """Rules may hold the positive view of a negated if/else
+    (rules.common._NegIf); the graph knows the statement itself."""
+    return getattr(n, 'node', n) if type(n).__name__ == '_NegIf' else n
 
 
 def _order_key(n):
